@@ -24,6 +24,14 @@ RULE = ("(1) the parameter splitter on every text of length <= 5 over {a , space
         "members likely; every slice of the fixed, 4 per seeded list; mostly >= 2 members selected; both notations): "
         "parent(n) n in default,0..4, name() of each climbed ancestor, name() of the reached nodes, and each parent() result "
         "must be held by its reported parent under its reported parentref; has_child on hashes, lists, nulls, scalars; "
+        "keys that a parameter can only name quoted or escaped (17 keys holding literal backslashes, commas, quotes, inner / edge "
+        "blanks) as the attribute / child key of Arrays-of-Hashes, hashes of hashes and single hashes of <= 3 members, next to "
+        "members holding a look-alike key (the key without its backslashes, with them doubled, unquoted, cut at the comma ...) "
+        "instead or as well, x has_child / max / min / unique / distinct x inversion x the escaped, single- and double-quoted "
+        "spelling of the key x two ways of writing that in a path - judged by the model and model-free (has_child = exactly the "
+        "hashes having / lacking the key); max() / min() plain and inverted over what a flat or nested collector ((X)), "
+        "((X)+(Y)), (((X)+(Y))+(Z)) ... gathered from lists / hashes of ints and floats with ties, both notations - judged on the "
+        "values (numeric greatest / least, inverted the others in any order); "
         "collections holding containers (crash classes).  Observable: result node addresses in order (identity of the "
         "yielded container, else parent identity + parentref), for name() the yielded key/index, or the error class.  "
         "distinct_nontrivial = distinct cases with a non-empty result that is a proper subset of the members or a "
@@ -853,6 +861,125 @@ def random_cases(rng, n):
     return cases
 
 
+# --------------------------------------------------------------------------- max / min behind (nested) collectors
+
+def run_coll_kw(docj, path, kw, inv):
+    """Values (as [kind, text], in order) that `path` = <collector groups>[<!>max()|min()] yields on the real Processor."""
+    from yamlpath import Processor, YAMLPath
+    from yamlpath.enums import PathSegmentTypes
+    from yamlpath.path.searchkeywordterms import SearchKeywordTerms
+    from yamlpath.wrappers import NodeCoords
+    from harness.props import c12
+    doc = codec.json_to_ruamel(docj)
+
+    def parse():
+        yp = YAMLPath(path)
+        segs = list(yp.escaped)
+        last = segs[-1][1] if kw else None
+        ok = all(sg[0] is PathSegmentTypes.COLLECTOR for sg in (segs[:-1] if kw else segs)) and len(segs) >= 1
+        if kw:
+            ok = (ok and len(segs) >= 2 and isinstance(last, SearchKeywordTerms) and last.keyword.name == kw
+                  and bool(last.inverted) == inv and last._parameters == "")
+        return yp, ok
+    st, val = cc.guarded(parse)
+    if st != "ok" or not val[1]:
+        return None
+    res = []
+
+    def flat(x):
+        while isinstance(x, NodeCoords):
+            x = x.node
+        if isinstance(x, list):
+            for y in x:
+                flat(y)
+        else:
+            res.append(c12.ident(x))
+
+    def go():
+        for nc in Processor(core.quiet_logger(), doc).get_nodes(val[0], mustexist=True):
+            flat(nc)
+    st, val2 = cc.guarded(go)
+    if st == "ok":
+        return {"vals": res}
+    if st == "timeout":
+        return {"err": "timeout"}
+    cls = core.exc_class(val2)
+    if cls == "ypath" and not res:
+        return {"vals": []}
+    return {"err": cls, "site": core.crash_site(val2)}
+
+
+def coll_kw_chunk(cases):
+    """max() / min(), plain and inverted, over what a (nested) collector gathered from lists / hashes of numbers: exactly
+    the gathered members whose value is greatest / least (all of them on a tie), inverted exactly the others - judged on
+    the values themselves (numbers only, so `greatest` is numeric)."""
+    from harness.props import c12
+    stats = {"n": 0, "nontrivial": 0, "oom": 0, "fam": {}, "skipped": 0, "crash_agreed": {}}
+    viol = []
+    for c in cases:
+        expr = c12.coll_expr(c["shape"], c["operands"], c["fslash"])
+        plainj = codec.json_to_plain(c["doc"])
+        cands = []
+        for key, _star in c["operands"]:
+            coll = plainj[key]
+            cands += list(coll.values()) if isinstance(coll, dict) else list(coll)
+        stats["n"] += 1
+        base = run_coll_kw(c["doc"], expr, None, False)
+        if base is None or base.get("vals") != [c12.ident(v) for v in cands]:
+            stats["skipped"] += 1            # what the collector gathers is not C13's subject
+            continue
+        path = "%s[%s%s()]" % (expr, "!" if c["inv"] else "", KW[c["kw"]])
+        got = run_coll_kw(c["doc"], path, c["kw"], c["inv"])
+        if got is None:
+            stats["skipped"] += 1
+            continue
+        nested = "nested" if "((" in c["shape"] else "flat"
+        fam = "collector-%s/%s" % (nested, KW[c["kw"]])
+        stats["fam"][fam] = stats["fam"].get(fam, 0) + 1
+        case = dict(c, kind="collkw", query=path)
+        what = "%s on %s" % (path, json.dumps(plainj))
+        if "err" in got:
+            viol.append(("%s@%s" % (got["err"], got.get("site")), what + " raised %s" % got["err"], case))
+            continue
+        best = max(cands) if c["kw"] == "MAX" else min(cands)
+        want = [c12.ident(v) for v in cands if (v == best) != c["inv"]]
+        # the property fixes WHICH members, not the order in which the inverted form hands them out
+        if sorted(got["vals"]) != sorted(want):
+            viol.append(("direct:collector-%s:%s%s" % (nested, "!" if c["inv"] else "", KW[c["kw"]]),
+                         what + " yielded %s; the gathered members %s %s are %s"
+                         % (got["vals"], "other than the" if c["inv"] else "with the", "greatest" if c["kw"] == "MAX" else "least", want), case))
+            continue
+        if 0 < len(want) < len(cands):
+            stats["nontrivial"] += 1
+    return stats, viol[:40], [], []
+
+
+def collector_kw_cases(rng, tier):
+    """Three collections (lists; the third may be a hash) of ints / floats whose text order differs from their numeric
+    order, repeats allowed (ties); every grouping of c12.COLL_SHAPES over 1-3 of them; max / min x inversion."""
+    from harness.props import c12
+    cases = []
+    for d in range(60 if tier == "quick" else 600):
+        pool = [c12.COLL_NUMS, c12.COLL_NUMS, c12.COLL_FLOATS, c12.COLL_NUMS + c12.COLL_FLOATS][d % 4]
+        colls = {}
+        for key in ("a", "b", "c"):
+            vals = [rng.choice(pool) for _ in range(rng.randint(1, 4))]
+            if key == "c" and rng.random() < 0.5:
+                colls[key] = {"k": "map", "e": [["k%d" % i, sj(v)] for i, v in enumerate(vals)]}
+            else:
+                colls[key] = {"k": "seq", "i": [sj(v) for v in vals]}
+        doc = {"k": "map", "e": [[k, colls[k]] for k in ("a", "b", "c")]}
+        for n in (1, 2, 3):
+            for shape in c12.COLL_SHAPES[n]:
+                keys = rng.sample(["a", "b", "c"], n)
+                operands = [[k, True if colls[k]["k"] == "map" else rng.random() < 0.5] for k in keys]
+                for kw in ("MAX", "MIN"):
+                    for inv in (False, True):
+                        cases.append({"doc": doc, "operands": operands, "shape": shape, "fslash": rng.random() < 0.3,
+                                      "kw": kw, "inv": inv})
+    return cases
+
+
 def check_tables(chk):
     from yamlpath.enums import PathSearchKeywords
     live = {k.name: str(k) for k in PathSearchKeywords}
@@ -868,7 +995,8 @@ def run(chk: core.Check):
     if chk.replay_in:
         rp = json.load(open(chk.replay_in))
         c = rp.get("case", rp)
-        res = split_chunk([c["params"]]) if c.get("kind") == "split" else kw_chunk([c])
+        res = (split_chunk([c["params"]]) if c.get("kind") == "split" else
+               coll_kw_chunk([c]) if c.get("kind") == "collkw" else kw_chunk([c]))
         st, viol, disag, _ = res
         print("replay:", json.dumps({"case": c, "violations": [v[:2] for v in viol], "disagreements": [d[:2] for d in disag]},
                                     default=str, ensure_ascii=False))
@@ -890,6 +1018,10 @@ def run(chk: core.Check):
     chk.extra_cov["cases_generated"] = len(cases)
     rng.shuffle(cases)
     for r in core.pmap(kw_chunk, core.chunked(cases, 64)):
+        _absorb(chk, *r)
+    ckw = collector_kw_cases(random.Random(chk.seed * 11 + 3), tier)
+    chk.extra_cov["collector_kw_cases"] = len(ckw)
+    for r in core.pmap(coll_kw_chunk, core.chunked(ckw, 64)):
         _absorb(chk, *r)
     chk.exhaustive = True
     chk.extra_cov["exhaustive_bound"] = ("all sequences of length <= 5 over 3 values x 7 value triples; all AoH (5 member states) "
